@@ -53,7 +53,37 @@ NNAMES = 4
 # written as annotations.  A string object has the same number whether it occurs as the raw
 # annotation of a postponed function or as an annotation VALUE (eager `a: 'T'`, or postponed
 # `a: 'T'` after evaluation): SPELL_BASE + its index here -- in Python they are equal strings.
-SPELL = ['T', 'U', 'W', 'X', "'T'", "'U'", "'W'", "'X'"]
+# The NAMES are a property of the world (World.spell_names): the neutral T U W X, or names spelled
+# like an export of typing (Any, Type, Text, Mapping, Counter, Pattern ...: what a module gets from
+# `from collections.abc import Mapping`, `class Any`, `Text = bytes`) or like a builtin (int, list,
+# type ...), bound by the module to its OWN objects -- what such a name denotes is what the defining
+# module's globals say, whatever typing / builtins call by that name.  SPELL always holds the
+# spellings of the world being built / examined (worlds are handled one after the other).
+DEFAULT_NAMES = ['T', 'U', 'W', 'X']
+SPELL = DEFAULT_NAMES + ["'%s'" % n for n in DEFAULT_NAMES]
+TYPING_LIKE = ['Any', 'Type', 'Text', 'Mapping', 'Sequence', 'Callable', 'Counter', 'OrderedDict', 'Pattern',
+               'Optional', 'Union', 'List', 'Dict', 'Set', 'Tuple', 'Iterable', 'Match', 'ChainMap', 'Deque',
+               'Protocol', 'Generic', 'Final', 'Literal', 'NoReturn', 'ClassVar', 'Hashable', 'Sized', 'TypeVar',
+               'AnyStr', 'IO', 'NamedTuple', 'TypedDict', 'Awaitable', 'Coroutine', 'ContextManager', 'Annotated']
+BUILTIN_LIKE = ['int', 'str', 'list', 'dict', 'type', 'object', 'bytes', 'float', 'set', 'tuple', 'bool',
+                'frozenset', 'complex', 'Exception', 'id', 'property', 'slice', 'range']
+
+
+def pick_names(rng):
+    """four distinct annotation names for a world: at least two spelled like typing exports (one
+    drawn from typing.__all__ of the running interpreter), at least one like a builtin"""
+    import typing
+    import keyword
+    exports = sorted(n for n in typing.__all__ if n.isidentifier() and not keyword.iskeyword(n))
+    names = [rng.choice([n for n in TYPING_LIKE if n in typing.__all__] or exports), rng.choice(exports),
+             rng.choice(BUILTIN_LIKE), rng.choice(TYPING_LIKE + BUILTIN_LIKE + DEFAULT_NAMES)]
+    out = []
+    for n in names:
+        while n in out:
+            n = rng.choice(exports)
+        out.append(n)
+    rng.shuffle(out)
+    return out
 
 
 def pick_spell(rng):
@@ -150,7 +180,10 @@ def fn_source(spec, modalias):
 class World(object):
     """bindings: per module {spelling index: object id}; funcs: list of specs."""
 
-    def __init__(self, bindings, funcs):
+    def __init__(self, bindings, funcs, spell_names=None):
+        self.spell_names = list(spell_names or DEFAULT_NAMES)
+        assert len(self.spell_names) == NNAMES and len(set(self.spell_names)) == NNAMES
+        self.activate()
         self.bindings = [{int(k): v for k, v in b.items()} for b in bindings]
         for b in self.bindings:
             for i in range(NNAMES):
@@ -292,6 +325,10 @@ class World(object):
             self.objs[mode][sp['fid']] = g
             self.register(g, sp['fid'])
 
+    def activate(self):
+        """make this world's spellings the current ones"""
+        SPELL[:] = self.spell_names + ["'%s'" % n for n in self.spell_names]
+
     def note(self, fid):
         if fid not in self.seen:
             self.seen.append(fid)
@@ -336,7 +373,8 @@ class World(object):
                 need.add(sib['of'])
             if self.funcs[f].get('wraps'):
                 need.add(self.funcs[f]['wraps']['of'])
-        return {'bindings': self.bindings, 'funcs': [self.funcs[f] for f in sorted(need)]}
+        return {'bindings': self.bindings, 'funcs': [self.funcs[f] for f in sorted(need)],
+                'spell_names': self.spell_names}
 
 
 def cleanup(ctx=None):
@@ -356,7 +394,7 @@ def _annotate_spec(rng, ps, density):
     return out
 
 
-def gen_world(rng, nfam=14, nrand=10, ninner=10, nwrap=24, ntpl=10, nrehome=12, nwraps=20, wild=False):
+def gen_world(rng, nfam=14, nrand=10, ninner=10, nwrap=24, ntpl=10, nrehome=12, nwraps=20, wild=False, spell_names=None):
     bindings = [{s: rng.randint(1, NOBJ) for s in range(NNAMES)} for _ in range(NMOD)]
     # two spellings of one object in module 0; one spelling, different objects in modules 0 / 1
     bindings[0][2] = bindings[0][0]
@@ -431,7 +469,7 @@ def gen_world(rng, nfam=14, nrand=10, ninner=10, nwrap=24, ntpl=10, nrehome=12, 
         fvk = 'kwargs' if vk and (fva is None or rng.random() < 0.9) else None
         add(m, outer, 'W', 0.7, call={'callee': callee['fid'], 'cmod': callee['mod'],
                                       'n': rng.choice([0, 0, 0, 1]), 'kw': kw, 'va': fva, 'vk': fvk})
-    return World(bindings, funcs)
+    return World(bindings, funcs, spell_names)
 
 
 def given_value(rng, world, f, sp, single):
@@ -1264,6 +1302,7 @@ def show_case(world, case):
 # ---------------------------------------------------------------- examination
 def examine(world, cases, rep=None):
     """-> (violations [(key, what, case)], corr breaks [(case, mode, model, impl)], stats)"""
+    world.activate()
     answers = []
     items = []
     rcases = []      # the case as written to a replay file: with the retrieval history that matters
@@ -1398,12 +1437,17 @@ def run(ctx, rep):
     # the wildcard family: further worlds in which a spelling denotes, and annotate is given, an
     # object that compares equal to everything
     wrng = ctx.rng('wildworld')
+    srng = ctx.rng('spellings')
+    spellings = []
     nwild = 1 if ctx.quick else 3
     nwcases = 1800 if ctx.quick else 5000
     try:
         for w in range(nworlds + nwild):
             if w < nworlds:
-                world = gen_world(rng)
+                # the first world spells its annotations T U W X; the others like exports of typing and
+                # like builtins (the modules bind those names to their own objects)
+                world = gen_world(rng, spell_names=pick_names(srng) if w else None)
+                spellings.append(list(world.spell_names))
                 cases = gen_cases(rng, world, ncases)
             else:
                 world = gen_world(wrng, wild=True)
@@ -1444,11 +1488,12 @@ def run(ctx, rep):
         cleanup()
     rep.evaluations = total
     rep.coverage['finding_histogram'] = hist
+    rep.coverage['annotation_names_per_world'] = spellings
     rep.coverage['c11_stats'] = agg
     rep.assumptions = [
         'annotation objects compare by identity (instances of a plain class), except the wildcard object of the wildcard family, which compares equal to '
         'everything: cases in which a wildcard-annotated parameter is conciled with a parameter of another input are decided by the oracle and the twin '
-        'relation only, not compared with the model; annotation spellings are plain names bound in every module',
+        'relation only, not compared with the model; annotation spellings are plain names bound in every module (neutral ones, and ones spelled like exports of typing / builtins)',
         'the environment g of the model is the generator\'s table of module bindings; modules are not rebound after the functions are defined',
     ]
 
@@ -1465,7 +1510,7 @@ def all_fids(world, c):
 
 # ---------------------------------------------------------------- replay
 def _rerun(r):
-    world = World(r['bindings'], r['funcs'])
+    world = World(r['bindings'], r['funcs'], r.get('spell_names'))
     try:
         case = r['case']
         viol, breaks, stats = examine(world, [case])
